@@ -15,7 +15,7 @@ import io
 
 from hypothesis import strategies as st
 
-from vlib import bootstrap, gen, model, libroute, eamtab, parsers, compare
+from vlib import bootstrap, gen, model, libroute, eamtab, parsers, compare, build_api
 from vlib.num import DomainError, EN
 from checks import c03_setfl, c05_tabeam
 
@@ -37,9 +37,13 @@ ASSUMPTIONS = [
     "inside the element block of type(j) (pair_eam: rho[i] += rhor[type2rhor[jtype][itype]]); DL_POLY EEAM block "
     "'dens A B' and the Excel column 'A->B' hold the density at an A site from a B neighbour",
     "cluster atoms sit on grid nodes so no interpolation enters",
+    "rewrite histories (a density callable re-parametrised between writes) re-use one tabulation object only for "
+    "the text formats: the Excel classes expose a public `workbook` property that is built once and kept by design "
+    "(a user may edit it before write()), so for Excel every write of a history uses a fresh tabulation object over "
+    "the same callables",
 ]
 REQUIRED = {"format:setfl_fs": 30, "format:DL_POLY_EAM_fs": 30, "format:excel_eam_fs": 30, "asymmetric": 60,
-            "undeclared_combination": 30, "route:potable": 30, "route:function": 8, "route:class": 20}
+            "undeclared_combination": 30, "route:potable": 30, "route:function": 8, "route:class": 20, "rewrite:2_writes": 2}
 FORMATS = ["setfl_fs", "DL_POLY_EAM_fs", "excel_eam_fs"]
 
 
@@ -63,6 +67,21 @@ def _case(draw, fmt, n_min=1, n_max=4):
     return m
 
 
+KS = [1.0, 2.0, -1.0, 0.5, 3.0, 0.1, -2.5]
+
+
+@st.composite
+def _rewrite(draw, fmt):
+    """the same model objects written several times while one declared density callable is re-parametrised in
+    between: every file must hold the functions as they are when it is written"""
+    m = draw(_case(fmt, 1, 3))
+    m["route"] = draw(st.sampled_from(["class", "function"] if fmt != "excel_eam_fs" else ["class"]))
+    ks = draw(st.lists(st.sampled_from(KS), min_size=2, max_size=3).filter(lambda l: all(a != b for a, b in zip(l, l[1:]))))
+    m["rewrite"] = {"which": draw(st.integers(0, len(m["density_fs"]) - 1)), "ks": ks,
+                    "same_object": draw(st.booleans()) and fmt != "excel_eam_fs"}
+    return m
+
+
 def strategy(tier):
     return _case("setfl_fs")
 
@@ -72,6 +91,7 @@ def strata(tier):
     for f in FORMATS:
         out.append((f + ":1-2", _case(f, 1, 2), 1))
         out.append((f + ":2-4", _case(f, 2, 4), 3))
+    out.append(("rewrite", st.sampled_from(FORMATS).flatmap(_rewrite), 1))
     return out
 
 
@@ -169,45 +189,30 @@ def _verify_excel(m, data, ctx, ref):
     return v, (lambda ti, tj: cols["%s->%s" % (ti, tj)])
 
 
-def check_case(m):
-    fmt, route = m["format"], m["route"]
-    cls = ["format:" + fmt, "route:" + route]
-    els = eamtab.element_set(m)
-    asym = len(els) >= 2 and _asym(m)
-    if asym:
-        cls.append("asymmetric")
-    if len(m["density_fs"]) < len(els) ** 2:
-        cls.append("undeclared_combination")
-    ctx = eamtab.potable_text(m, fmt)
-    ref = model.Ref(m["env"])
+def _write_api(m, fmt, route, objs=None, tab=None):
+    """-> (output, tabulation object or None)"""
+    pairs, eams = objs
+    g = m["grid"]
     nr, dr, nrho, drho = eamtab.grids(m)
-    try:
-        c05_tabeam._domain(m, ref)
-        want_cluster = _cluster_model(m, ref, dr, nr)
-    except (DomainError, OverflowError, ZeroDivisionError):
-        return {"v": [], "cls": cls, "nt": False, "skip": True}
-    try:
-        if route == "potable":
-            out = libroute.write_text(libroute.read_text(ctx))
+    args = (pairs, eams, g["cutoff"], g["nr"], g["cutoff_rho"], g["nrho"])
+    if fmt == "excel_eam_fs":
+        fp = io.BytesIO()
+        tab = tab or Excel_FinnisSinclair_EAMTabulation(*args)
+        tab.write(fp)
+    else:
+        fp = io.StringIO()
+        if route == "function":
+            fn = ap.writeSetFLFinnisSinclair if fmt == "setfl_fs" else ap.writeTABEAMFinnisSinclair
+            fn(nrho, drho, nr, dr, eams, pairs, out=fp)
         else:
-            pairs, eams = eamtab.api_objects(m)
-            g = m["grid"]
-            args = (pairs, eams, g["cutoff"], g["nr"], g["cutoff_rho"], g["nrho"])
-            if fmt == "excel_eam_fs":
-                fp = io.BytesIO()
-                Excel_FinnisSinclair_EAMTabulation(*args).write(fp)
-            else:
-                fp = io.StringIO()
-                if route == "function":
-                    fn = ap.writeSetFLFinnisSinclair if fmt == "setfl_fs" else ap.writeTABEAMFinnisSinclair
-                    fn(nrho, drho, nr, dr, eams, pairs, out=fp)
-                else:
-                    cl = SetFL_FS_EAMTabulation if fmt == "setfl_fs" else TABEAM_FinnisSinclair_EAMTabulation
-                    cl(*args).write(fp)
-            out = fp.getvalue()
-    except Exception as e:
-        return {"v": [("write:exception:%s@%s" % (type(e).__name__, libroute.innermost_atsim_frame(e)), "%r\n%s" % (e, ctx))],
-                "cls": cls, "nt": False}
+            cl = SetFL_FS_EAMTabulation if fmt == "setfl_fs" else TABEAM_FinnisSinclair_EAMTabulation
+            tab = tab or cl(*args)
+            tab.write(fp)
+    return fp.getvalue(), tab
+
+
+def _verify(m, fmt, out, ctx, ref, want_cluster):
+    nr, dr, nrho, drho = eamtab.grids(m)
     v = []
     lookup = None
     try:
@@ -238,8 +243,87 @@ def check_case(m):
                     v.append(("cluster:" + fmt, "atom %d (type %s) of cluster %r: density %r from the file by the "
                               "consumer's rule, %r from the model\n%s" % (i, m["cluster"]["types"][i], m["cluster"], g_, w.v, ctx)))
                     break
-    except DomainError:
-        return {"v": [], "cls": cls, "nt": False, "skip": True}
     except KeyError as e:
         v.append(("cluster:missing_slot", "consumer lookup failed for %r\n%s" % (e, ctx)))
+    return v
+
+
+def _check_rewrite(m, cls):
+    import copy
+    fmt, route, rw = m["format"], m["route"], m["rewrite"]
+    cls = cls + ["rewrite:%d_writes" % len(rw["ks"]), "rewrite:" + ("one_object" if rw["same_object"] and route == "class" else "same_callables")]
+    a, b, pd = m["density_fs"][rw["which"]]
+    holders = []
+
+    def wrap(kind, key, f):
+        if key == (a, b):
+            holders.append(build_api.scaled(f))
+            return holders[-1]
+        return f
+    objs = eamtab.api_objects(m, wrap=wrap)
+    tab = None
+    v = []
+    nt = False
+    for n, k in enumerate(rw["ks"]):
+        for h in holders:
+            h.k = k
+        mm = copy.deepcopy(m)
+        mm["density_fs"][rw["which"]][2] = build_api.scaled_potdef(pd, k)
+        ctx = "write number %d from the same model objects, density %s->%s re-parametrised to k=%r before it\n%s" % (
+            n + 1, a, b, k, eamtab.potable_text(mm, fmt))
+        ref = model.Ref(mm["env"])
+        nr, dr, nrho, drho = eamtab.grids(mm)
+        try:
+            c05_tabeam._domain(mm, ref)
+            want_cluster = _cluster_model(mm, ref, dr, nr)
+        except (DomainError, OverflowError, ZeroDivisionError):
+            return {"v": [], "cls": cls, "nt": False, "skip": True}
+        try:
+            out, t2 = _write_api(mm, fmt, route, objs[:2], tab if rw["same_object"] else None)
+            tab = t2
+        except Exception as e:
+            return {"v": [("rewrite:exception:%s@%s" % (type(e).__name__, libroute.innermost_atsim_frame(e)), "%r\n%s" % (e, ctx))],
+                    "cls": cls, "nt": False}
+        try:
+            vv = _verify(mm, fmt, out, ctx, ref, want_cluster)
+        except DomainError:
+            return {"v": [], "cls": cls, "nt": False, "skip": True}
+        v += [(("rewrite:" + bk) if n else bk, d) for bk, d in vv]
+        nt = nt or n > 0
+        if v:
+            break
+    return {"v": v, "cls": cls, "nt": nt}
+
+
+def check_case(m):
+    fmt, route = m["format"], m["route"]
+    cls = ["format:" + fmt, "route:" + route]
+    els = eamtab.element_set(m)
+    asym = len(els) >= 2 and _asym(m)
+    if asym:
+        cls.append("asymmetric")
+    if len(m["density_fs"]) < len(els) ** 2:
+        cls.append("undeclared_combination")
+    if m.get("rewrite"):
+        return _check_rewrite(m, cls)
+    ctx = eamtab.potable_text(m, fmt)
+    ref = model.Ref(m["env"])
+    nr, dr, nrho, drho = eamtab.grids(m)
+    try:
+        c05_tabeam._domain(m, ref)
+        want_cluster = _cluster_model(m, ref, dr, nr)
+    except (DomainError, OverflowError, ZeroDivisionError):
+        return {"v": [], "cls": cls, "nt": False, "skip": True}
+    try:
+        if route == "potable":
+            out = libroute.write_text(libroute.read_text(ctx))
+        else:
+            out, _ = _write_api(m, fmt, route, eamtab.api_objects(m)[:2])
+    except Exception as e:
+        return {"v": [("write:exception:%s@%s" % (type(e).__name__, libroute.innermost_atsim_frame(e)), "%r\n%s" % (e, ctx))],
+                "cls": cls, "nt": False}
+    try:
+        v = _verify(m, fmt, out, ctx, ref, want_cluster)
+    except DomainError:
+        return {"v": [], "cls": cls, "nt": False, "skip": True}
     return {"v": v, "cls": cls, "nt": asym}
